@@ -18,7 +18,11 @@ dead <i> <client> <N> <tmo 0|1> <answered K> <fault> <when> <cut>
 tmo <i> <client> <late|early|race>                   -> <i> first <Timeout|own|racy> next own
 cancel <i> <client> <prewrite|wait>                  -> <i> cancelled next own residue 0
 stall <i> <client> <fault>                           -> <i> small Err big Err
+abandon <i> <client> <MiB>                           -> <i> next returned
+wtmo <i> <client> <N> <MiB>                          -> <i> small Err,.. big Err
 seq <i> <client> <T> <K>                             -> <i> ok <T*K>
+sched <i> <client> <N> <S0,W0,Fr0,D,T0,C0,X,A,..>    -> <i> got <tag|T|E|HANG|->,.. gates <m|u|n>,..
+      (forced on the real client through the verif-hooks probe points, see fam_mux.rs `mod sched`)
 ```
 -/
 namespace Repe.Driver.Mux
@@ -87,7 +91,7 @@ def runCase (cfg : Cfg) (ids : List Nat) (toks : List String) : String :=
 
 /-- The scripted batch server: holds up to `w` arrived requests (arrival = index order in the
 model), answers `held[order[k] % |held|]` at its `k`-th answer. Returns the finish order. -/
-def batchFinishOrder (n w : Nat) (order : List Nat) : List Nat :=
+def batchFinishOrder (n w : Nat) (order : List Nat) (rev : Bool := false) : List Nat :=
   let rec go (fuel : Nat) (held : List Nat) (next answered : Nat) (acc : List Nat) : List Nat :=
     match fuel with
     | 0 => acc.reverse
@@ -97,17 +101,17 @@ def batchFinishOrder (n w : Nat) (order : List Nat) : List Nat :=
       let next := next + take
       if held.isEmpty then acc.reverse
       else
-        let pick := (order.getD (answered % (max order.length 1)) 0) % held.length
+        let pick := if rev then held.length - 1 else (order.getD (answered % (max order.length 1)) 0) % held.length
         let c := held.getD pick 0
         go fuel (held.eraseIdx pick) next (answered + 1) (c :: acc)
   go n [] 0 0 []
 
 /-- batch: worker `j` pops request `j` (pops happen in index order), the calls finish in the
 server's order; the call for request `q` returns `q` (the server echoes the request's own tag). -/
-def runBatch (n w : Nat) (order : List Nat) : String :=
+def runBatch (n w : Nat) (order : List Nat) (rev : Bool := false) : String :=
   let b : Batch Nat Nat := Batch.start (List.range n)
   let b := (List.range n).foldl (fun b w => bstep b (.pop w)) b
-  let b := (batchFinishOrder n w order).foldl (fun b w => match b.cur w with
+  let b := (batchFinishOrder n w order rev).foldl (fun b w => match b.cur w with
     | some (_, q) => bstep b (.finish w q)
     | none => b) b
   "out " ++ ",".intercalate (b.out.map fun o => match o with | some t => toString t | none => "none")
@@ -214,6 +218,99 @@ def runStall (cfg : Cfg) : String :=
   let s := [Ev.recv 0, .write 7, .cleanup 7, .recv 7].foldl (step cfg) s
   "small " ++ showDead false (s.calls 0) ++ " big " ++ showDead false (s.calls 7)
 
+/-- A call is cancelled while writing (`cancel`, `cleanup`), then another call is made: it returns. -/
+def runAbandon (cfg : Cfg) : String :=
+  let s := [Ev.alloc 7, .register 7, .cancel 7, .cleanup 7, .alloc 1, .register 1, .write 1].foldl (step cfg) State.init
+  -- either the client refuses to go on (write error / connection failed) or the call is answered
+  let a := [Ev.rmatch { id := (s.calls 1).id, notify := false, tag := 1 }, .deliver, .recv 1].foldl (step cfg) s
+  let b := failToEnd cfg (step cfg s .readErr) 12
+  let b := step cfg b (.recv 1)
+  let fin (k : Call) : Bool := match k.pc with | .returned _ => true | _ => false
+  "next " ++ (if fin (a.calls 1) && fin (b.calls 1) then "returned" else "HANG")
+
+/-- `n` calls in flight, a further call's write fails (write timeout); the client shuts the
+connection down, the reader notices and fails everything. -/
+def runWtmo (cfg : Cfg) (n : Nat) : String :=
+  let callers := List.range n
+  let s := callers.foldl (fun s c => step cfg (step cfg (step cfg s (.alloc c)) (.register c)) (.write c)) State.init
+  let s := [Ev.alloc 7, .register 7, .writeFail 7, .cleanup 7].foldl (step cfg) s
+  let s := failToEnd cfg (step cfg s .readErr) (n + 12)
+  let s := callers.foldl (fun s c => step cfg s (.recv c)) s
+  "small " ++ ",".intercalate (callers.map fun c => showDead false (s.calls c)) ++ " big " ++ showDead false (s.calls 7)
+
+/-! ### `sched`: the action lists forced on the real clients through the probe points -/
+
+/-- Steps of the failure path that execute no statement of `fail_all_pending` (an empty send loop,
+leaving the function) are taken silently: the real reader has no gate there. -/
+def absorb (cfg : Cfg) (s : State) (fuel : Nat) : State :=
+  match fuel with
+  | 0 => s
+  | fuel + 1 =>
+    match s.reader with
+    | .failing (.sendErrors :: _) [] _ => absorb cfg (step cfg s .failStep) fuel
+    | .failing [] [] _ => step cfg s .failStep
+    | _ => s
+
+def showSched (k : Call) : String :=
+  match k.pc with
+  | .returned (.resp f) => toString f.tag
+  | .returned .timedOut => "T"
+  | .returned _ => "E"
+  | .abandoning _ => "E"
+  | .idle => "-"
+  | _ => "HANG"
+
+structure SchedSt where
+  s : State
+  ftag : Nat := 0
+  gates : List String := []
+  bad : Bool := false
+
+def schedAct (cfg : Cfg) (st : SchedSt) (a : String) : SchedSt :=
+  let rest : List Char := a.toList.drop 1
+  let num (t : List Char) : Nat := natOf (String.ofList (t.filter Char.isDigit))
+  match a.toList.headD ' ' with
+  | 'S' => let c := num rest; { st with s := step cfg (step cfg st.s (.alloc c)) (.register c) }
+  | 'W' =>
+    let c := num rest
+    let s := step cfg st.s (.write c)
+    -- a failed write removes the entry and returns in one go
+    let s := match (s.calls c).pc with | .abandoning .writeErr => step cfg s (.cleanup c) | _ => s
+    { st with s := s }
+  | 'T' => { st with s := step cfg st.s (.timeout (num rest)) }
+  | 'C' => { st with s := step cfg st.s (.cleanup (num rest)) }
+  | 'F' =>
+    let k := num (rest.drop 1)
+    let f : Option Frame :=
+      match rest.headD ' ' with
+      | 'r' => some { id := (st.s.calls k).id, notify := false, tag := st.ftag }
+      | 'n' => some { id := (st.s.calls k).id, notify := true, tag := st.ftag }
+      | 'u' => some { id := 1000000000 + k, notify := false, tag := st.ftag }
+      | _ => none
+    match f with
+    | none => { st with bad := true }
+    | some f =>
+      let s := step cfg st.s (.rmatch f)
+      let g := match s.reader with
+        | .holding _ _ => "m"
+        | .holdingNotify _ _ => "n"
+        | _ => if cfg.notifyAware && f.notify then "n" else "u"
+      { st with s := s, ftag := st.ftag + 1, gates := st.gates ++ [g] }
+  | 'D' => { st with s := step cfg st.s .deliver }
+  | 'X' => { st with s := step cfg st.s .readErr }
+  | 'A' => { st with s := absorb cfg (step cfg st.s .failStep) 8 }
+  | _ => { st with bad := true }
+
+def runSched (cfg : Cfg) (n : Nat) (acts : List String) : String :=
+  let st := acts.foldl (schedAct cfg) { s := step cfg State.init .subscribe }
+  if st.bad then "bad-op" else
+  let callers := List.range n
+  -- whatever is left of the failure path runs to its end, then every call collects what it has
+  let s := failToEnd cfg st.s 40
+  let s := callers.foldl (fun s c => step cfg s (.recv c)) s
+  "got " ++ ",".intercalate (callers.map fun c => showSched (s.calls c)) ++
+    " gates " ++ (if st.gates.isEmpty then "-" else ",".intercalate st.gates)
+
 def stepLine (_ : Unit) (ws : List String) : Unit × String :=
   let bad (i : String) := ((), i ++ " bad-op")
   match ws with
@@ -226,7 +323,7 @@ def stepLine (_ : Unit) (ws : List String) : Unit × String :=
   | ["batch", i, client, n, w, order] =>
     match cfgOf (natOf client) with
     | none => bad i
-    | some _ => ((), i ++ " " ++ runBatch (natOf n) (natOf w) ((splitCommas order).map natOf))
+    | some _ => ((), i ++ " " ++ runBatch (natOf n) (natOf w) ((splitCommas order).map natOf) (order == "rev"))
   | ["dead", i, client, n, _tmo, answered, _fault, _when, _cut] =>
     match cfgOf (natOf client) with
     | none => bad i
@@ -235,10 +332,22 @@ def stepLine (_ : Unit) (ws : List String) : Unit × String :=
     match cfgOf (natOf client) with
     | none => bad i
     | some cfg => ((), i ++ " " ++ runTmo cfg kind)
+  | ["sched", i, client, n, acts] =>
+    match cfgOf (natOf client) with
+    | none => bad i
+    | some cfg => ((), i ++ " " ++ runSched cfg (natOf n) (splitCommas acts))
   | ["seq", i, client, t, k] =>
     match cfgOf (natOf client) with
     | none => bad i
     | some cfg => ((), i ++ " " ++ runSeq cfg (natOf t * natOf k))
+  | ["abandon", i, client, _mib] =>
+    match cfgOf (natOf client) with
+    | none => bad i
+    | some cfg => ((), i ++ " " ++ runAbandon cfg)
+  | ["wtmo", i, client, n, _mib] =>
+    match cfgOf (natOf client) with
+    | none => bad i
+    | some cfg => ((), i ++ " " ++ runWtmo cfg (natOf n))
   | ["stall", i, client, _fault] =>
     match cfgOf (natOf client) with
     | none => bad i
